@@ -2,6 +2,7 @@ import OptunaVerif.Props.C15Gen
 import OptunaVerif.Props.C15
 import OptunaVerif.Lemmas.RankBridge
 import OptunaVerif.Lemmas.RankBridge2
+import OptunaVerif.Lemmas.FrontBridge
 /-!
 # C15 (translator tie, part 2) — the hypervolume theorems of `Props/C15.lean`, restated for the interpreters of the generated IR
 
@@ -390,5 +391,13 @@ open OptunaVerif.RankIR in
 -- the input of seeded C15-2 (a NaN penalty next to ranked rows): the NaN-penalty row comes after every ranked row
 example : fastGen Generated.RankMethods.prog (C15Gen.calcCallee frontH) 2 [[0, 1], [1, 0], [1, 1], [1, 1], [2, 2], [3, 3]]
     (.pen [some 0, some 1, none, some (-1), some 2, some 1]) .none_ = .ints [0, 2, 4, 1, 3, 2] := by decide
+
+/-- **front_bridge_le2_partial** — the two hand models of `_is_pareto_front_for_unique_sorted` (C12's mask over extended rationals, the one
+C12Gen's interpreter of the generated `_is_pareto_front` is proved equal to; C15's list of kept lattice rows, the parameter of the wfg / rank
+interpreters) agree for one and two objectives under the encoding `FrontBridge.encRow`.  PARTIAL: three and more objectives are not bridged,
+and the parameter of `gen_compute_hypervolume_eq` / `gen_calculate_rank_eq` is not yet discharged with the interpreter of the generated front. -/
+theorem front_bridge_le2_partial (d : Nat) (hd : d = 1 ∨ d = 2) (U : List Pt) (hU : ∀ p ∈ U, p.length = d) :
+    RankIR.selMask U (Best.frontSorted (U.map FrontBridge.encRow)) = Hypervolume.frontSorted id d U :=
+  FrontBridge.frontSorted_eq_best_front_le2 d hd U hU
 
 end OptunaVerif.C15GenSpec
